@@ -408,3 +408,26 @@ func TestRegress_C08(t *testing.T) {
 		}
 	}
 }
+
+// F21: the text encoder counted nesting in an int8; from 127 levels up nested members were written as
+// top-level key=value pairs.
+func TestRegress_C08_Tower(t *testing.T) {
+	for _, d := range []int{126, 127, 128, 129, 300} {
+		f := log.Object("leaf", log.Int("x", 1))
+		for i := 0; i < d; i++ {
+			f = log.Object("n", f, log.Int("s", i))
+		}
+		e := &log.Event{Level: log.InfoLevel, Time: time.Unix(0, 0).UTC(), Tag: "_app_def", File: "f.go", Line: 7, Fields: []log.Field{f, log.Int("after", 7)}}
+		jl, tl, p := formatBoth(e, 48)
+		vk.Eval()
+		if p != nil {
+			t.Fatalf("VERIF-VIOLATION C08 regress: %d nested objects make a layout panic: %v", d, p)
+		}
+		js, ts := string(jl), string(tl)
+		ji, ti := strings.Index(js, `"n":`), strings.Index(ts, "n=")
+		je, te := strings.LastIndex(js, `,"after"`), strings.LastIndex(ts, "||after")
+		if ji < 0 || ti < 0 || je < 0 || te < 0 || js[ji+4:je] != ts[ti+2:te] {
+			t.Fatalf("VERIF-VIOLATION C08 regress: a tower of %d nested objects: the text layout's value is not the JSON layout's token (text line %d bytes, JSON line %d bytes)", d, len(ts), len(js))
+		}
+	}
+}
